@@ -56,6 +56,11 @@ func genResponseFamily(c *Ctx, filter func(string) bool) {
 		}
 		// a shared component response reached through an alias chain, on a path with a camelCase variable
 		sb.WriteString("  /c/{itemId}:\n    get:\n      parameters:\n        - name: itemId\n          in: path\n          required: true\n          schema:\n            type: string\n      responses:\n        '200':\n          $ref: '#/components/responses/ItemAlias2'\n        '410':\n          description: gone\n          headers:\n" + hdr(4, 12))
+		if i%2 == 1 {
+			// the same component response under a third and a fourth operation, statuses a-a-b-a in usage order
+			sb.WriteString("  /d:\n    put:\n      responses:\n        '201':\n          $ref: '#/components/responses/ItemOK'\n")
+			sb.WriteString("  /e:\n    get:\n      responses:\n        '200':\n          $ref: '#/components/responses/ItemOK'\n        '404':\n          $ref: '#/components/responses/Accepted'\n")
+		}
 		sb.WriteString("components:\n  schemas:\n    Item:\n      type: object\n      required:\n        - id\n      properties:\n        id:\n          type: integer\n          format: int64\n        label:\n          type: string\n          nullable: true\n    Err:\n      type: object\n      required:\n        - message\n      properties:\n        message:\n          type: string\n")
 		sb.WriteString("  responses:\n    ItemOK:\n      description: item\n      headers:\n" + hdr(5, 8) + jsonBody("Item", 6))
 		sb.WriteString("    ItemAlias:\n      $ref: '#/components/responses/ItemOK'\n    ItemAlias2:\n      $ref: '#/components/responses/ItemAlias'\n")
